@@ -1,10 +1,7 @@
 use std::net::SocketAddr;
 
 use socket2::Domain;
-#[cfg(not(pavex_verif))]
-use tokio::net::{TcpListener, TcpStream};
-#[cfg(pavex_verif)]
-use super::sim::{TcpListener, TcpStream};
+#[cfg(not(pavex_verif))] use tokio::net::{TcpListener, TcpStream};
 
 /// A stream of incoming connections.  
 ///
@@ -154,3 +151,6 @@ impl From<TcpListener> for IncomingStream {
         Self { listener: v }
     }
 }
+
+#[cfg(pavex_verif)]
+use super::sim::{TcpListener, TcpStream};
